@@ -229,8 +229,89 @@ func genCondSimp(src string) (string, string, error) {
 		return "", "", err
 	}
 
+	// 4. util.go LoadsPrefs: the basenames of the files whose inclusion sets Tools.SeenPrefs, and the
+	// directory under which every file is taken to do so.  Required shape:
+	//	switch filename.Base() { case "a", "b", ...: return true }
+	//	return filename.ContainsPath("mk")
+	_, f4, err := parseFile(filepath.Join(src, "util.go"))
+	if err != nil {
+		return "", "", err
+	}
+	lp := findFunc(f4, "LoadsPrefs")
+	if lp == nil || lp.Body == nil {
+		return "", "", fmt.Errorf("LoadsPrefs not found in util.go")
+	}
+	if lp.Type.Params == nil || len(lp.Type.Params.List) != 1 || len(lp.Type.Params.List[0].Names) != 1 {
+		return "", "", fmt.Errorf("LoadsPrefs: expected one parameter")
+	}
+	lpParam := lp.Type.Params.List[0].Names[0].Name
+	isParamCall := func(e ast.Expr, method string, nargs int) (*ast.CallExpr, bool) {
+		c, ok := e.(*ast.CallExpr)
+		if !ok || len(c.Args) != nargs {
+			return nil, false
+		}
+		sel, ok := c.Fun.(*ast.SelectorExpr)
+		if !ok || sel.Sel.Name != method {
+			return nil, false
+		}
+		id, ok := sel.X.(*ast.Ident)
+		return c, ok && id.Name == lpParam
+	}
+	isReturnTrue := func(st ast.Stmt) bool {
+		r, ok := st.(*ast.ReturnStmt)
+		if !ok || len(r.Results) != 1 {
+			return false
+		}
+		id, ok := r.Results[0].(*ast.Ident)
+		return ok && id.Name == "true"
+	}
+	if len(lp.Body.List) != 2 {
+		return "", "", fmt.Errorf("LoadsPrefs: expected `switch filename.Base() {...}; return filename.ContainsPath(...)`, found %d statements", len(lp.Body.List))
+	}
+	sw, ok := lp.Body.List[0].(*ast.SwitchStmt)
+	if !ok || sw.Init != nil || sw.Tag == nil {
+		return "", "", fmt.Errorf("LoadsPrefs: first statement is not a plain switch")
+	}
+	if _, ok := isParamCall(sw.Tag, "Base", 0); !ok {
+		return "", "", fmt.Errorf("LoadsPrefs: the switch is not on %s.Base()", lpParam)
+	}
+	var prefsNames []string
+	for _, st := range sw.Body.List {
+		cc := st.(*ast.CaseClause)
+		if cc.List == nil {
+			return "", "", fmt.Errorf("LoadsPrefs: default clause in the switch")
+		}
+		if len(cc.Body) != 1 || !isReturnTrue(cc.Body[0]) {
+			return "", "", fmt.Errorf("LoadsPrefs: a case does something other than `return true`")
+		}
+		for _, e := range cc.List {
+			s, ok := strLit(e)
+			if !ok {
+				return "", "", fmt.Errorf("LoadsPrefs: case label is not a string literal")
+			}
+			prefsNames = append(prefsNames, s)
+		}
+	}
+	ret, ok := lp.Body.List[1].(*ast.ReturnStmt)
+	if !ok || len(ret.Results) != 1 {
+		return "", "", fmt.Errorf("LoadsPrefs: second statement is not a return")
+	}
+	cp, ok := isParamCall(ret.Results[0], "ContainsPath", 1)
+	if !ok {
+		return "", "", fmt.Errorf("LoadsPrefs: the final return is not %s.ContainsPath(\"...\")", lpParam)
+	}
+	prefsDir, ok := strLit(cp.Args[0])
+	if !ok || prefsDir == "" || strings.ContainsAny(prefsDir, "./") {
+		return "", "", fmt.Errorf("LoadsPrefs: ContainsPath argument is not a plain component literal")
+	}
+	sort.Strings(prefsNames)
+	prefsNamesCoq := make([]string, len(prefsNames))
+	for i, n := range prefsNames {
+		prefsNamesCoq[i] = coqBytes(n) + " (* " + n + " *)"
+	}
+
 	var sb strings.Builder
-	sb.WriteString("(* GENERATED by gen/ from /repo/v23/{mkcondchecker,mktypes,mkcondsimplifier}.go -- do not edit *)\n")
+	sb.WriteString("(* GENERATED by gen/ from /repo/v23/{mkcondchecker,mktypes,mkcondsimplifier,util}.go -- do not edit *)\n")
 	sb.WriteString("From PV Require Import Lib.Bytes.\nOpen Scope N_scope.\n")
 	sb.WriteString("(* mkCondStringLiteralUnquoted *)\n")
 	sb.WriteString("Definition lit_unquoted_set : list N := " + coqSet(sets["mkCondStringLiteralUnquoted"]) + ".\n")
@@ -244,6 +325,10 @@ func genCondSimp(src string) (string, string, error) {
 	sb.WriteString("Definition numeric_head_set : list N := " + coqSet(numericHeadSet) + ".\n")
 	sb.WriteString("(* simplifyWord: that regex, as bytes *)\n")
 	sb.WriteString("Definition needs_quotes_regex : str := " + coqBytes(rw[0]) + ".\n")
+	sb.WriteString("(* util.go LoadsPrefs: switch filename.Base() { case ...: return true } *)\n")
+	sb.WriteString("Definition loads_prefs_names : list str :=\n  [" + strings.Join(prefsNamesCoq, ";\n   ") + "].\n")
+	sb.WriteString("(* util.go LoadsPrefs: return filename.ContainsPath(...) *)\n")
+	sb.WriteString("Definition loads_prefs_dir : str := " + coqBytes(prefsDir) + ".\n")
 	return "CondSimpSets.v", sb.String(), nil
 }
 
